@@ -692,6 +692,19 @@ fn run_mini(m: &Mini, h: &Vec<Op>, drop_table: bool) -> Outcome
                     if lines.len() > 1 { complaints.push(("B-build-C20".to_string(), format!("{} status lines for {}: {:?}", lines.len(), t, lines))); }
                     if ran == 0 && lines.iter().any(|l| l.as_str() == "Built") { complaints.push(("B-build-C20".to_string(), format!("{} reported Built in a build that ran no command", t))); }
                     if ok && goal.is_none() && lines.is_empty() { complaints.push(("B-build-C20".to_string(), format!("successful build of everything: no status line for {}", t))); }
+                    /*  a status line is TRUE of its own target: 'Recovered' = other bytes are at the path now than before (they came
+                        back from the cache, no command ran for it); 'Up-to-date' = the bytes at the path were not touched */
+                    if ok && lines.len() == 1
+                    {
+                        let was : Option<String> = before.0.get(&t.to_string()).map(|x| x.0.clone());
+                        let is : Option<String> = read(&system, t);
+                        match lines[0].as_str()
+                        {
+                            "Recovered" => if was.is_some() && was == is { complaints.push(("B-build-C20".to_string(), format!("{} reported Recovered but the bytes at its path are the ones that were there before ({:?})", t, is))); },
+                            "Up-to-date" => if was != is { complaints.push(("B-build-C20".to_string(), format!("{} reported Up-to-date but the bytes at its path changed from {:?} to {:?}", t, was, is))); },
+                            _ => {},
+                        }
+                    }
                 }
                 /*  the failure report as the user sees it (main prints the error with `{}`): every missing file is named in it */
                 if let Op::BuildReport(_, names) = op
@@ -1107,6 +1120,57 @@ tail.src
 final.txt
 :
 ";
+const RULES_TWINS : &str = "\
+out1.txt
+out2.txt
+:
+in.txt
+:
+mycat2
+in.txt
+out1.txt
+out2.txt
+:
+
+after.txt
+:
+out2.txt
+:
+mycat
+out2.txt
+after.txt
+:
+";
+const RULES_PAIR_SIB : &str = "\
+a.txt
+b.txt
+:
+s.txt
+:
+mycat2
+s.txt
+a.txt
+b.txt
+:
+
+c.txt
+:
+r.txt
+:
+mycat
+r.txt
+c.txt
+:
+
+d.txt
+:
+b.txt
+:
+mycat
+b.txt
+d.txt
+:
+";
 const RULES_FAILS : &str = "\
 left.txt
 :
@@ -1267,6 +1331,23 @@ fn verif_build_mini_scenarios()
                    vec![Clean],
                    vec![BuildGoal("book.txt", &["book.txt"]), Clean],
                    vec![BuildGoal("book.txt", &["book.txt"]), CleanGoal("docs", &["docs"]), CleanGoal("book.txt", &["book.txt"])],
+               ] },
+        /*  the two targets of one rule hold the SAME bytes (one cache entry for both), and a dependent of the second: going back to an
+            earlier source state brings only one of them back from the cache, the other has to be made again */
+        Mini { name: "twin targets of one rule", rules: RULES_TWINS, files: &[("in.txt", "a\n")], dirs: &[],
+               targets: &["out1.txt", "out2.txt", "after.txt"],
+               histories: vec![
+                   vec![Build, Write("in.txt", "b\n"), Build, Write("in.txt", "a\n"), Build],
+                   vec![Build, Write("in.txt", "b\n"), Build, Delete("out1.txt"), Write("in.txt", "a\n"), Build, Build],
+                   vec![Build, Clean, Build, Write("in.txt", "b\n"), Build, Clean, Write("in.txt", "a\n"), Build],
+               ] },
+        /*  a two-target rule, a sibling rule that writes the same bytes in the same invocation, and a dependent of the second target:
+            in the last build the first target is already right (written by hand) and the second comes back from the cache */
+        Mini { name: "two targets, the first already right", rules: RULES_PAIR_SIB, files: &[("s.txt", "x"), ("r.txt", "q")], dirs: &[],
+               targets: &["a.txt", "b.txt", "c.txt", "d.txt"],
+               histories: vec![
+                   vec![Build, Write("s.txt", "y"), Write("r.txt", "x"), Build, Write("r.txt", "z"), Build, Write("s.txt", "x"), Write("a.txt", "x"), Build],
+                   vec![Build, Write("s.txt", "y"), Write("r.txt", "x"), Build, Write("r.txt", "z"), Build, Write("s.txt", "x"), Write("b.txt", "x"), Build],
                ] },
         Mini { name: "several rules fail alike", rules: RULES_FAILS, files: &[("in.txt", "input\n")], dirs: &[],
                targets: &["left.txt", "right.txt", "middle.txt", "far.txt", "further.txt"],
